@@ -83,11 +83,22 @@ def unsupported_dtype(
     )
 
 
+def format_number(value: object) -> str:
+    """Return str(value), or a description of an int too long for Python to convert to a str."""
+    try:
+        return str(value)
+    except ValueError:
+        # sys.get_int_max_str_digits(): an int of thousands of digits has no decimal string.
+        if isinstance(value, int):
+            return f"{'-' if value < 0 else ''}(an integer of {value.bit_length()} bits)"
+        raise
+
+
 def int_out_of_range(value: int, min: int, max: int) -> OverflowError:
     """Create an OverflowError when an int is out of the specified range."""
     raise OverflowError(
         "The input value is out of range.\n\n"
-        f"Requested value: {value}\n"
+        f"Requested value: {format_number(value)}\n"
         f"Minimum value: {min}\n",
         f"Maximum value: {max}",
     )
